@@ -60,12 +60,20 @@ func (config Config) New(session *packet.Session) (h *Handler, err error) {
 
 // Close the handler and terminate all internal goroutines
 func (h *Handler) Close() error {
+	h.arpMutex.Lock() // closed is read by the spoof loops and by Scan
+	defer h.arpMutex.Unlock()
 	if h.closed {
 		return nil
 	}
 	h.closed = true
 	close(h.closeChan) // this will exit all background goroutines
 	return nil
+}
+
+func (h *Handler) isClosed() bool {
+	h.arpMutex.RLock()
+	defer h.arpMutex.RUnlock()
+	return h.closed
 }
 
 // PrintTable print the ARP table to stdout.
@@ -238,7 +246,7 @@ func (h *Handler) Scan() error {
 			continue
 		}
 
-		if h.closed { // return if Close() is called when we are in the loop
+		if h.isClosed() { // return if Close() is called when we are in the loop
 			return nil
 		}
 		err := h.Request(ip)
